@@ -33,6 +33,7 @@ type jsonDiag struct {
 }
 
 var posnRe = regexp.MustCompile(`^(.*):(\d+):(\d+)$`)
+var posnNoColRe = regexp.MustCompile(`^(.*):(\d+)$`) // after a //line directive without column
 
 // parseTree turns the -json output of a go/analysis driver into an Outcome.
 func parseTree(out []byte, root string) (*driver.Outcome, error) {
@@ -75,6 +76,11 @@ func parseTree(out []byte, root string) (*driver.Outcome, error) {
 				}
 				for _, d := range diags {
 					m := posnRe.FindStringSubmatch(d.Posn)
+					if m == nil {
+						if m2 := posnNoColRe.FindStringSubmatch(d.Posn); m2 != nil {
+							m = []string{m2[0], m2[1], m2[2], "0"}
+						}
+					}
 					if m == nil {
 						return nil, fmt.Errorf("bad posn %q", d.Posn)
 					}
@@ -152,7 +158,7 @@ func realLegs(tier string, seed uint64, realBin string, a *core.Agg) ([]*core.Vi
 	jobs := make([]*job, n)
 	for i := range jobs {
 		t := core.NewTape(core.Mix(seed, uint64(1<<40+i)))
-		w, _ := world.Generate(t, world.GenOpt{MinPkgs: 3, MaxPkgs: 6, NeedDepth2: true, CleanChance: 2})
+		w, _ := world.Generate(t, world.GenOpt{MinPkgs: 3, MaxPkgs: 6, NeedDepth2: true, CleanChance: 2, LineDirectives: true, DirExclude: true})
 		jobs[i] = &job{i: i, w: w, dir: filepath.Join(base, fmt.Sprintf("w%d", i)), single: w.Pkgs[t.Draw(len(w.Pkgs))].Path}
 	}
 	var wg sync.WaitGroup
@@ -247,7 +253,7 @@ func realLegs(tier string, seed uint64, realBin string, a *core.Agg) ([]*core.Vi
 		a.Add("real.go_vet_runs", 2)
 		a.Inc("real.worlds")
 
-		paths := append([]string(nil), all...)
+		paths := j.w.OutcomePaths(all)
 		sort.Strings(paths)
 		// 1. the real drivers among themselves: a disagreement is a C06 violation
 		for _, p := range paths {
